@@ -175,18 +175,17 @@ func (r *defaultMetricLogReader) readMetricsInOneFileByEndTime(filename string, 
 }
 
 func readLine(bufReader *bufio.Reader) (string, error) {
-	buf := make([]byte, 0, 64)
-	for {
-		line, ne, err := bufReader.ReadLine()
-		if err != nil {
-			return "", err
-		}
-		buf = append(buf, line...)
-		if !ne {
-			return string(buf), err
-		}
-		// buffer size < line size, so we need to read until the `ne` flag is false.
+	line, err := bufReader.ReadBytes('\n')
+	if err != nil {
+		// Without its line break the last line was cut short (a crash in the middle of a write).
+		// Parsing it could yield an item with truncated field values, so it is dropped.
+		return "", err
 	}
+	line = line[:len(line)-1]
+	if n := len(line); n > 0 && line[n-1] == '\r' {
+		line = line[:n-1]
+	}
+	return string(line), nil
 }
 
 func getLatestSecond(items []*base.MetricItem) uint64 {
